@@ -1,4 +1,5 @@
 import Memterm.Props.C02
+import Memterm.Proofs.Utf8Spec
 
 /-
   C11 — Byte input is decoded as streaming UTF-8 (or 1:1 in 8-bit mode).
@@ -10,6 +11,8 @@ import Memterm.Props.C02
 -/
 namespace Memterm
 namespace C11
+
+open Utf8Spec
 
 /-- Unicode scalar value -/
 def Scalar (c : Nat) : Prop := c < 0x110000 ∧ ¬ (0xD800 ≤ c ∧ c ≤ 0xDFFF)
@@ -153,6 +156,160 @@ theorem dok_step (d : DState) (b : Nat) (h : DOk d) : DOk (utf8Step d b).1 := by
   simp only
   repeat' split
   all_goals first | (simp only [DState.init]; omega) | (simp only []; omega)
+
+/-! the declarative specification (Memterm/Proofs/Utf8Spec.lean) -/
+
+/-- Table 3-7 and the encoding function agree: the well-formed sequences are exactly the
+    encodings of the Unicode scalar values -/
+theorem wf_encode (c : Nat) (h : Scalar c) : wfSeq (encode c) = some c := by
+  obtain ⟨h1, h2⟩ := h
+  unfold encode
+  by_cases c1 : c < 0x80
+  · simp [c1, wfSeq]; omega
+  · by_cases c2 : c < 0x800
+    · simp only [c1, c2, if_false, if_true, wfSeq, inR, cont]
+      have a : (0xC2 ≤ 0xC0 + c / 64 ∧ 0xC0 + c / 64 ≤ 0xDF) ∧ (0x80 ≤ 0x80 + c % 64 ∧ 0x80 + c % 64 ≤ 0xBF) := by omega
+      simp [a.1.1, a.1.2, a.2.1, a.2.2]; omega
+    · by_cases c3 : c < 0x10000
+      · simp only [c1, c2, c3, if_false, if_true, wfSeq, inR, cont, second]
+        have a : (0xE0 ≤ 0xE0 + c / 4096 ∧ 0xE0 + c / 4096 ≤ 0xEF) := by omega
+        have b2 : (0x80 ≤ 0x80 + c % 64 ∧ 0x80 + c % 64 ≤ 0xBF) := by omega
+        by_cases e0 : c / 4096 = 0
+        · have b1 : 0xA0 ≤ 0x80 + c / 64 % 64 ∧ 0x80 + c / 64 % 64 ≤ 0xBF := by omega
+          simp [e0, b1.1, b1.2, b2.2]; omega
+        · by_cases ed : c / 4096 = 13
+          · have b1 : 0x80 ≤ 0x80 + c / 64 % 64 ∧ 0x80 + c / 64 % 64 ≤ 0x9F := by omega
+            simp [ed, b1.2, b2.2]; omega
+          · have b1 : 0x80 ≤ 0x80 + c / 64 % 64 ∧ 0x80 + c / 64 % 64 ≤ 0xBF := by omega
+            have n1 : ¬ (0xE0 + c / 4096 = 0xE0) := by omega
+            have n2 : ¬ (0xE0 + c / 4096 = 0xED) := by omega
+            have n3 : ¬ (0xE0 + c / 4096 = 0xF0) := by omega
+            have n4 : ¬ (0xE0 + c / 4096 = 0xF4) := by omega
+            simp [n1, n2, n3, n4, a.2, b1.2, b2.2]; omega
+      · simp only [c1, c2, c3, if_false, wfSeq, inR, cont, second]
+        have a : (0xF0 ≤ 0xF0 + c / 262144 ∧ 0xF0 + c / 262144 ≤ 0xF4) := by omega
+        have b2 : (0x80 + c / 64 % 64 ≤ 0xBF) := by omega
+        have b3 : (0x80 + c % 64 ≤ 0xBF) := by omega
+        have n1 : ¬ (0xF0 + c / 262144 = 0xE0) := by omega
+        have n2 : ¬ (0xF0 + c / 262144 = 0xED) := by omega
+        by_cases f0 : c / 262144 = 0
+        · have b1 : 0x90 ≤ 0x80 + c / 4096 % 64 ∧ 0x80 + c / 4096 % 64 ≤ 0xBF := by omega
+          simp [f0, b1.1, b1.2, b2, b3]; omega
+        · by_cases f4 : c / 262144 = 4
+          · have b1 : 0x80 + c / 4096 % 64 ≤ 0x8F := by omega
+            simp [f4, b1, b2, b3]; omega
+          · have b1 : 0x80 + c / 4096 % 64 ≤ 0xBF := by omega
+            have n3 : ¬ (0xF0 + c / 262144 = 0xF0) := by omega
+            have n4 : ¬ (0xF0 + c / 262144 = 0xF4) := by omega
+            simp [n1, n2, n3, n4, a.2, b1, b2, b3]; omega
+
+
+/-- ... and conversely: a sequence the table accepts denotes a scalar value whose encoding it is -/
+theorem encode_wf (seq : List Nat) (cp : Nat) (hw : wfSeq seq = some cp) : Scalar cp ∧ encode cp = seq := by
+  match seq, hw with
+  | [b0], hw =>
+    simp only [wfSeq] at hw
+    split at hw
+    · have e := Option.some.inj hw
+      subst e
+      refine ⟨⟨by omega, by omega⟩, ?_⟩
+      have : b0 < 0x80 := by omega
+      simp [encode, this]
+    · cases hw
+  | [b0, b1], hw =>
+    simp only [wfSeq] at hw
+    split at hw
+    · rename_i h
+      simp only [inR, cont, Bool.and_eq_true, decide_eq_true_eq] at h
+      have e := Option.some.inj hw
+      subst e
+      refine ⟨⟨by omega, by omega⟩, ?_⟩
+      have n1 : ¬ ((b0 - 0xC0) * 64 + (b1 - 0x80) < 0x80) := by omega
+      have n2 : (b0 - 0xC0) * 64 + (b1 - 0x80) < 0x800 := by omega
+      simp only [encode, n1, n2, if_false, if_true, List.cons.injEq, and_true]
+      omega
+    · cases hw
+  | [b0, b1, b2], hw =>
+    simp only [wfSeq] at hw
+    split at hw
+    · rename_i h
+      simp only [inR, cont, second, Bool.and_eq_true, decide_eq_true_eq] at h
+      have e := Option.some.inj hw
+      subst e
+      obtain ⟨⟨h0, hs⟩, h2⟩ := h
+      have hb1 : 0x80 ≤ b1 ∧ b1 ≤ 0xBF ∧ (b0 = 0xE0 → 0xA0 ≤ b1) ∧ (b0 = 0xED → b1 ≤ 0x9F) := by
+        by_cases e0 : b0 = 0xE0
+        · subst e0; simp [inR] at hs; omega
+        · by_cases ed : b0 = 0xED
+          · subst ed; simp [inR] at hs; omega
+          · have f0 : ¬ b0 = 0xF0 := by omega
+            have f4 : ¬ b0 = 0xF4 := by omega
+            simp [e0, ed, f0, f4, inR, cont] at hs
+            omega
+      refine ⟨⟨by omega, by omega⟩, ?_⟩
+      have n1 : ¬ (((b0 - 0xE0) * 64 + (b1 - 0x80)) * 64 + (b2 - 0x80) < 0x80) := by omega
+      have n2 : ¬ (((b0 - 0xE0) * 64 + (b1 - 0x80)) * 64 + (b2 - 0x80) < 0x800) := by omega
+      have n3 : ((b0 - 0xE0) * 64 + (b1 - 0x80)) * 64 + (b2 - 0x80) < 0x10000 := by omega
+      simp only [encode, n1, n2, n3, if_false, if_true, List.cons.injEq, and_true]
+      omega
+    · cases hw
+  | [b0, b1, b2, b3], hw =>
+    simp only [wfSeq] at hw
+    split at hw
+    · rename_i h
+      simp only [inR, cont, second, Bool.and_eq_true, decide_eq_true_eq] at h
+      have e := Option.some.inj hw
+      subst e
+      obtain ⟨⟨⟨h0, hs⟩, h2⟩, h3⟩ := h
+      have hb1 : 0x80 ≤ b1 ∧ b1 ≤ 0xBF ∧ (b0 = 0xF0 → 0x90 ≤ b1) ∧ (b0 = 0xF4 → b1 ≤ 0x8F) := by
+        have e0 : ¬ b0 = 0xE0 := by omega
+        have ed : ¬ b0 = 0xED := by omega
+        by_cases f0 : b0 = 0xF0
+        · subst f0; simp [inR] at hs; omega
+        · by_cases f4 : b0 = 0xF4
+          · subst f4; simp [inR] at hs; omega
+          · simp [e0, ed, f0, f4, inR, cont] at hs
+            omega
+      refine ⟨⟨by omega, by omega⟩, ?_⟩
+      have n1 : ¬ ((((b0 - 0xF0) * 64 + (b1 - 0x80)) * 64 + (b2 - 0x80)) * 64 + (b3 - 0x80) < 0x80) := by omega
+      have n2 : ¬ ((((b0 - 0xF0) * 64 + (b1 - 0x80)) * 64 + (b2 - 0x80)) * 64 + (b3 - 0x80) < 0x800) := by omega
+      have n3 : ¬ ((((b0 - 0xF0) * 64 + (b1 - 0x80)) * 64 + (b2 - 0x80)) * 64 + (b3 - 0x80) < 0x10000) := by omega
+      simp only [encode, n1, n2, n3, if_false, List.cons.injEq, and_true]
+      omega
+    · cases hw
+  | [], hw => cases hw
+  | _ :: _ :: _ :: _ :: _ :: _, hw => cases hw
+
+
+/-- THE C11 STATEMENT for UTF-8 mode, at full strength.  Whatever was fed before (the decoder
+    holding the incomplete tail `p`), the characters handed to the recogniser for the next bytes
+    `bs` are exactly the conforming decoding of `p ++ bs`: each well-formed sequence (= the
+    encoding of a scalar value, `wf_encode` / `encode_wf`) yields its code point once, each
+    ill-formed subsequence yields U+FFFD per maximal subpart, and the incomplete trailing
+    sequence is held; that decoding is unique (`decodes_unique`), so nothing is dropped,
+    duplicated or reordered, and it does not depend on the chunking (`C02.bytes_chunking`). -/
+theorem feedBytes_conforming (bp : ByteParser) (p bs : List Nat) (hu : bp.parser.useUtf8 = true)
+    (hp : Holds p bp.dec) :
+    ∃ out p', Decodes (p ++ bs) out p' ∧ Holds p' (feedBytes bp bs).1.dec ∧
+      (feedBytes bp bs).2 = (feed bp.parser out).2 := by
+  obtain ⟨p', h1, h2⟩ := decode_sound bs p bp.dec hp
+  refine ⟨(utf8Decode bp.dec bs).2, p', h2, ?_, ?_⟩ <;> simp [feedBytes, hu, h1]
+
+/-- the characterisation, completeness direction included: `out` is a conforming decoding of `bs`
+    if and only if it is what the decoder produces -/
+theorem conforming_iff (bs out : List Nat) :
+    (∃ p, Decodes bs out p) ↔ (utf8Decode DState.init bs).2 = out := decode_spec bs out
+
+/-- the conforming decoding of a byte string is unique -/
+theorem conforming_unique (bs out out' p p' : List Nat) (h : Decodes bs out p) (h' : Decodes bs out' p') :
+    out = out' ∧ stateFor p = stateFor p' := decodes_unique bs out out' p p' h h'
+
+/-- what is held back is literally the tail of the input -/
+theorem held_suffix (bs out p : List Nat) (h : Decodes bs out p) : ∃ pre, bs = pre ++ p :=
+  held_is_suffix bs out p h
+
+/-- a new ByteParser holds nothing -/
+theorem init_holds : Holds [] ByteParser.init.dec := Or.inl ⟨rfl, rfl⟩
 
 /-! 8-bit mode and mode switches -/
 
